@@ -42,9 +42,6 @@ def generate_stub_data(
     api = stubs_generator.api
     stubs_data: list[tuple[Path, str, str, bool]] = []
     for module in api.modules.values():
-        if module.name == "__init__":
-            continue
-
         log_msg = f"Creating stub data for {module.id}"
         logging.info(log_msg)
 
@@ -73,6 +70,9 @@ def generate_stub_data(
 
         module_id = shortest_path if shortest_path else package_info.replace(".", "/")
         module_name = alias if alias else module.name
+        if module_name == "__init__":
+            # Declarations of a package file (__init__.py) belong to the package: "path/to/package/package.sdsstub"
+            module_name = module.id.split("/")[-1]
 
         module_dir = Path(out_path / module_id)
         stubs_data.append((module_dir, module_name, module_text, False))
